@@ -8,7 +8,7 @@ from ..model import AnalysisError, walk_no_nested, params_of
 from .. import report as R
 from ..report import RuleSpec
 from .. import codec as C
-from .common import fn_loc, unparse, returns_of
+from .common import fn_loc, unparse, returns_of, call_name
 from . import sm_common as S
 
 
@@ -403,6 +403,125 @@ def _sm_write(ctx):
 
 
 
+def _column_values(fn_node, loop):
+    """the value every column of the note frame ends up with, as an expression over NUM / DEN (numerator and denominator of the
+    row's beat), METRONOME and COL_<c> (a column as built): `F["c"] = [E(i) for i in F.beat]`, `F["c"] = E`, `F.c op= E`,
+    `F.c = F.c.astype(int)` are evaluated in statement order; inside the per-measure loop the group's columns start as the
+    frame's, and a local Series (`rows = (g.num * (den_max / g.den)).astype(int)`) is a value of its own.  'cell' maps the store
+    `lines[a][b] = v` to (row value, column value, stored value) through the row loop's variables."""
+    import copy
+    cols: Dict[str, ast.AST] = {}
+    gvar = None
+    if loop is not None and isinstance(loop.target, ast.Tuple) and len(loop.target.elts) == 2 and isinstance(loop.target.elts[1], ast.Name):
+        gvar = loop.target.elts[1].id
+
+    def colref(e, frames):
+        if isinstance(e, ast.Attribute) and isinstance(e.value, ast.Name) and e.value.id in frames:
+            return e.attr
+        if isinstance(e, ast.Subscript) and isinstance(e.value, ast.Name) and e.value.id in frames and isinstance(e.slice, ast.Constant) and \
+                isinstance(e.slice.value, str):
+            return e.slice.value
+        return None
+
+    def ev(e, env, frames, locs):
+        class T(ast.NodeTransformer):
+            def visit_Attribute(self, n):
+                c = colref(n, frames)
+                if c is not None and isinstance(n.ctx, ast.Load):
+                    return copy.deepcopy(env.get(c, ast.Name(id=f"COL_{c}", ctx=ast.Load())))
+                return self.generic_visit(n)
+
+            def visit_Subscript(self, n):
+                c = colref(n, frames)
+                if c is not None and isinstance(n.ctx, ast.Load):
+                    return copy.deepcopy(env.get(c, ast.Name(id=f"COL_{c}", ctx=ast.Load())))
+                return self.generic_visit(n)
+
+            def visit_Name(self, n):
+                if isinstance(n.ctx, ast.Load) and n.id in locs:
+                    return copy.deepcopy(locs[n.id])
+                return n
+
+            def visit_Call(self, n):
+                n = self.generic_visit(n)
+                if isinstance(n.func, ast.Attribute) and n.func.attr == "astype" and len(n.args) == 1 and unparse(n.args[0]) in ("int", "'int'", "np.int64", "'int64'"):
+                    return ast.Call(func=ast.Name(id="int", ctx=ast.Load()), args=[n.func.value], keywords=[])
+                if isinstance(n.func, ast.Attribute) and n.func.attr in ("to_numpy", "tolist", "copy") and not n.args:
+                    return n.func.value
+                return n
+        return T().visit(copy.deepcopy(e))
+
+    def per_elem(lc, frames):
+        """[E(i) for i in F.beat] -> E with i.numerator -> NUM, i.denominator -> DEN"""
+        if not (isinstance(lc, ast.ListComp) and len(lc.generators) == 1 and not lc.generators[0].ifs and isinstance(lc.generators[0].target, ast.Name)):
+            return None
+        if colref(lc.generators[0].iter, frames) != "beat":
+            return None
+        v = lc.generators[0].target.id
+
+        class T(ast.NodeTransformer):
+            def visit_Attribute(self, n):
+                if isinstance(n.value, ast.Name) and n.value.id == v and n.attr in ("numerator", "denominator"):
+                    return ast.Name(id="NUM" if n.attr == "numerator" else "DEN", ctx=ast.Load())
+                return self.generic_visit(n)
+        return T().visit(copy.deepcopy(lc.elt))
+
+    def run(stmts, env, frames, locs, stop=None):
+        for s in stmts:
+            if s is stop:
+                break
+            if isinstance(s, ast.Assign) and len(s.targets) == 1:
+                c = colref(s.targets[0], frames)
+                if c is not None:
+                    pe = per_elem(s.value, frames)
+                    env[c] = pe if pe is not None else ev(s.value, env, frames, locs)
+                elif isinstance(s.targets[0], ast.Name) and any(colref(x, frames) is not None for x in ast.walk(s.value)) and \
+                        not (isinstance(s.value, ast.Call) and isinstance(s.value.func, ast.Name)):
+                    # (a scalar reduced out of a column — den_max = min(reduce(..)) — keeps its name; a Series computed from columns is a value)
+                    locs[s.targets[0].id] = ev(s.value, env, frames, locs)
+            elif isinstance(s, ast.AugAssign):
+                c = colref(s.target, frames)
+                if c is not None:
+                    env[c] = ast.BinOp(left=copy.deepcopy(env.get(c, ast.Name(id=f"COL_{c}", ctx=ast.Load()))), op=s.op, right=ev(s.value, env, frames, locs))
+    run(fn_node.body, cols, {"notes"}, {}, stop=loop)
+    gcols = dict(cols)
+    glocs: Dict[str, ast.AST] = {}
+    frames_g = {"notes", gvar} if gvar else {"notes"}
+    inner = None
+    if loop is not None:
+        inner = next((n for n in loop.body if isinstance(n, ast.For) and any(
+            isinstance(x, ast.Assign) and isinstance(x.targets[0], ast.Subscript) and isinstance(x.targets[0].value, ast.Subscript) and
+            unparse(x.targets[0].value.value) == "lines" for x in ast.walk(n))), None)
+        run(loop.body, gcols, frames_g, glocs, stop=inner)
+
+    def cell(st):
+        if inner is None or not any(x is st for x in ast.walk(inner)):
+            return None
+        rowvars: Dict[str, ast.AST] = {}
+        it = inner.iter
+        rec = None
+        if isinstance(it, ast.Call) and call_name(it) in ("itertuples",) and isinstance(inner.target, ast.Name) and \
+                isinstance(it.func.value, ast.Name) and it.func.value.id in frames_g:
+            rec = inner.target.id
+        elif isinstance(it, ast.Call) and call_name(it) == "zip" and isinstance(inner.target, ast.Tuple) and len(inner.target.elts) == len(it.args) and \
+                all(isinstance(t, ast.Name) for t in inner.target.elts):
+            for t, a in zip(inner.target.elts, it.args):
+                rowvars[t.id] = ev(a, gcols, frames_g, glocs)
+        else:
+            return None
+
+        def val(e):
+            if rec is not None and isinstance(e, ast.Attribute) and isinstance(e.value, ast.Name) and e.value.id == rec:
+                return copy.deepcopy(gcols.get(e.attr, ast.Name(id=f"COL_{e.attr}", ctx=ast.Load())))
+            if isinstance(e, ast.Name) and e.id in rowvars:
+                return rowvars[e.id]
+            if isinstance(e, ast.Call) and call_name(e) == "int" and len(e.args) == 1:
+                return ast.Call(func=ast.Name(id="int", ctx=ast.Load()), args=[val(e.args[0])], keywords=[])
+            return e
+        return val(st.targets[0].value.slice), val(st.targets[0].slice), val(st.value)
+    return {"cols": cols, "gcols": gcols, "cell": cell}
+
+
 def rule_r7(ctx) -> List[R.Inst]:
     """an object at absolute beat B is written to measure B // 4, row (B mod 4)/4 * rows: shapes of the row-index computation"""
     from .. import sym
@@ -435,51 +554,75 @@ def rule_r7(ctx) -> List[R.Inst]:
                                                              "the measure of an object is its absolute beat // 4",
                                                              construct=unparse(m) if m is not None else ""))
     # den = denominator * METRONOME ; num = numerator mod den   => position in the measure = (beat mod 4) / 4
-    d, nn = stores.get("den"), stores.get("num")
-    d_ok = d is not None and isinstance(d.value, ast.ListComp) and unparse(d.value.elt).endswith(".denominator") and \
-        "notes.den" in augs and isinstance(augs["notes.den"].op, ast.Mult) and col(augs["notes.den"].value) == "M4"
-    n_ok = nn is not None and isinstance(nn.value, ast.ListComp) and unparse(nn.value.elt).endswith(".numerator") and \
-        "notes.num" in augs and isinstance(augs["notes.num"].op, ast.Mod) and col(augs["notes.num"].value) == "den"
-    order_ok = d_ok and n_ok and augs["notes.den"].lineno < augs["notes.num"].lineno
-    if d_ok and n_ok and order_ok:
-        insts.append(R.ok(rid, "position-in-measure", file, d.lineno, idiom="den = denominator*4; num = numerator mod den  (= (beat mod 4)/4)"))
-    else:
-        insts.append(R.viol(rid, "position-in-measure", file, (d or nn or wr.node).lineno,
-                            "position inside the measure must be (numerator mod (denominator*4)) / (denominator*4), the modulus taken "
-                            "after the denominator is scaled", construct="; ".join(unparse(x) for x in (d, nn) if x is not None)[:200]))
-    # row = num * (rows / den), exact ratio first; rows = min(lcm of the dens, MAX_SNAP)
+    # (read off the VALUE each column ends up with — stores, in-place updates and new Series alike: _column_values)
     loop = next((n for n in walk_no_nested(wr.node) if isinstance(n, ast.For) and unparse(n.iter) == "notes_gb"), None)
+    if loop is None:
+        # the groups iterated directly: for m, g in notes.groupby("measure")
+        loop = next((n for n in walk_no_nested(wr.node) if isinstance(n, ast.For) and isinstance(n.iter, ast.Call) and call_name(n.iter) == "groupby"
+                     and unparse(n.iter.func.value) == "notes"), None)
+    cv = _column_values(wr.node, loop)
+    d, nn = cv["cols"].get("den"), cv["cols"].get("num")
+    lfp = lambda n: {"NUM": "NUM", "DEN": "DEN", "METRONOME": "M4"}.get(unparse(n))   # noqa: E731
+    d_ok = d is not None and sym.canon(d, lfp).same(sym.parse("DEN * M4"))
+    n_ok = nn is not None and isinstance(nn, ast.BinOp) and isinstance(nn.op, ast.Mod) and sym.canon(nn.left, lfp).same(sym.parse("NUM")) and \
+        sym.canon(nn.right, lfp).same(sym.parse("DEN * M4"))
+    at = stores.get("den") or stores.get("num") or wr.node
+    if d_ok and n_ok:
+        insts.append(R.ok(rid, "position-in-measure", file, at.lineno, idiom="den = denominator*4; num = numerator mod den  (= (beat mod 4)/4)"))
+    elif d is None or nn is None:
+        insts.append(R.undec(rid, "position-in-measure", file, at.lineno, "the den / num columns of the note frame were not found"))
+    else:
+        insts.append(R.viol(rid, "position-in-measure", file, at.lineno,
+                            "position inside the measure must be (numerator mod (denominator*4)) / (denominator*4), the modulus taken "
+                            "after the denominator is scaled", construct=f"den = {unparse(d)}; num = {unparse(nn)}"[:200]))
+    # row = num * (rows / den), exact ratio first; rows = min(lcm of the dens, MAX_SNAP)
     if loop is None:
         insts.append(R.undec(rid, "row-index", file, wr.node.lineno, "per-measure loop not found"))
         return insts
-    g = unparse(loop.target.elts[1]) if isinstance(loop.target, ast.Tuple) else "g"
-    la = {unparse(n.target): n for n in ast.walk(loop) if isinstance(n, ast.AugAssign)}
-    sc = la.get(f"{g}.num")
-
-    def gl(n):
-        t = unparse(n)
-        if t == f"{g}.den":
-            return "den"
-        if t == f"{g}.num":
-            return "num"
-        if t == "den_max":
-            return "rows"
-        return None
-    if sc is not None and isinstance(sc.op, ast.Mult) and sym.canon(sc.value, gl).same(sym.parse("rows / den")):
-        insts.append(R.ok(rid, "row-index", file, sc.lineno, idiom="num *= rows / den (exact ratio first)"))
-    elif sc is not None:
-        insts.append(R.viol(rid, "row-index", file, sc.lineno, "the row of an object is num * (rows of the measure / den)",
-                            construct=unparse(sc)))
-    else:
-        insts.append(R.undec(rid, "row-index", file, loop.lineno, "row scaling not recognised"))
     st = [n for n in ast.walk(loop) if isinstance(n, ast.Assign) and isinstance(n.targets[0], ast.Subscript) and
           isinstance(n.targets[0].value, ast.Subscript) and unparse(n.targets[0].value.value) == "lines"]
-    if len(st) == 1 and unparse(st[0].targets[0].value.slice).endswith(".num") and unparse(st[0].targets[0].slice).endswith(".column") and \
-            unparse(st[0].value).endswith(".char"):
-        insts.append(R.ok(rid, "cell-store", file, st[0].lineno, idiom="lines[row][column] = symbol"))
-    else:
+    cell = cv["cell"](st[0]) if len(st) == 1 else None
+    if cell is None:
+        insts.append(R.undec(rid, "row-index", file, loop.lineno, "row scaling not recognised"))
         insts.append(R.viol(rid, "cell-store", file, (st[0] if st else loop).lineno, "each object is stored at lines[its row][its column]",
                             construct=unparse(st[0]) if st else "no store"))
+    else:
+        row, colv, val = cell
+        r0 = row
+        while isinstance(r0, ast.Call) and call_name(r0) == "int" and len(r0.args) == 1:
+            r0 = r0.args[0]
+        num_t, den_t = unparse(nn) if nn is not None else "?", unparse(d) if d is not None else "?"
+        # num * (rows / den): the ratio rows/den is exact for every den dividing rows; (num * rows) / den is the same number, but
+        # num / den * rows is not (17/28*84 = 50.999…): the division must have `rows` on top
+        shape_ok = isinstance(r0, ast.BinOp) and isinstance(r0.op, (ast.Mult, ast.Div))
+        lfr = lambda n: ("num" if unparse(n) == num_t else ("den" if unparse(n) == den_t else ("rows" if unparse(n) == "den_max" else None)))   # noqa: E731
+        formula_ok = shape_ok and sym.canon(r0, lfr).same(sym.parse("num * rows / den"))
+        inexact = None
+        if formula_ok:
+            for x in ast.walk(r0):
+                if isinstance(x, ast.BinOp) and isinstance(x.op, ast.Div) and unparse(x.right) == den_t and "den_max" not in unparse(x.left):
+                    inexact = x
+        truncated = isinstance(row, ast.Call) and call_name(row) == "int"
+        if formula_ok and inexact is None and truncated:
+            insts.append(R.ok(rid, "row-index", file, st[0].lineno, idiom="row = int(num * (rows / den)) (exact ratio first)"))
+        elif formula_ok and inexact is not None:
+            insts.append(R.viol(rid, "row-index", file, st[0].lineno,
+                                f"the row is computed with the quotient '{unparse(inexact)[:60]}' first, which is not representable for "
+                                f"denominators such as 7 or 28; the later int() truncates one row early: multiply by the exact ratio rows/den",
+                                construct=f"row = {unparse(row)[:120]}"))
+        elif shape_ok or not truncated:
+            insts.append(R.viol(rid, "row-index", file, st[0].lineno, "the row of an object is num * (rows of the measure / den)",
+                                construct=f"row = {unparse(row)[:160]}"))
+        else:
+            insts.append(R.undec(rid, "row-index", file, st[0].lineno, f"row expression not recognised: {unparse(row)[:100]}"))
+        c0 = colv
+        while isinstance(c0, ast.Call) and call_name(c0) == "int" and len(c0.args) == 1:
+            c0 = c0.args[0]
+        if unparse(c0) == "COL_column" and unparse(val) == "COL_char" and (truncated or formula_ok):
+            insts.append(R.ok(rid, "cell-store", file, st[0].lineno, idiom="lines[row][column] = symbol"))
+        else:
+            insts.append(R.viol(rid, "cell-store", file, st[0].lineno, "each object is stored at lines[its row][its column]",
+                                construct=f"lines[{unparse(row)[:60]}][{unparse(colv)[:40]}] = {unparse(val)[:40]}"))
     rows = [n for n in ast.walk(loop) if isinstance(n, ast.Assign) and unparse(n.targets[0]) == "lines"]
     if rows and "range(keys)" in unparse(rows[0].value) and "range(den_max)" in unparse(rows[0].value):
         insts.append(R.ok(rid, "grid", file, rows[0].lineno, idiom="den_max rows of `keys` cells"))
